@@ -16,7 +16,7 @@ from sa.model import AnalysisError, FuncInfo
 from sa.ctx import Ctx, short, stmt_key
 from sa.cfg import NORMAL, describe_path
 from sa.report import Report
-from sa.util import cfg_root, node_has_call, node_stores_attr, has_fact
+from sa.util import cfg_root, node_has_call, node_stores_attr, has_fact, extra_facts, fact_in, fact_in
 from sa import pat, linear
 
 
@@ -204,7 +204,7 @@ class C17:
         good = len(augs) >= 2
         for a in augs:
             facts = ctx.facts_at(u, a)
-            good = good and isinstance(a.op, ast.Add) and "_punt_secs" in ast.unparse(a.value) and ("%s == 'priority'" % key, True) in facts and \
+            good = good and isinstance(a.op, ast.Add) and "_punt_secs" in ast.unparse(a.value) and fact_in(facts, "%s == 'priority'" % key, True) and \
                 any(pol and ">" in txt and "priority" in txt for (txt, pol) in facts) and any(pol and txt.replace(" ", "") == "%s>0" % val for (txt, pol) in facts)
         rep.check("C17.A5", "updated|priority-arm", u, good, "changed += _punt_secs[side] under val > old priority and val > 0",
                   "the deferral applied when an entry is punted is no longer `changed += _punt_secs[side]` under (val > ent.priority and val > 0)")
@@ -234,7 +234,7 @@ class C17:
         for s in sets:
             facts = ctx.facts_at(fin, s)
             e = ast.unparse(s.targets[0].value)
-            good = good and ("%s.priority > 0" % e, True) in facts and ("%s.is_related_to(%s)" % (ent, e), True) in facts
+            good = good and fact_in(facts, "%s.priority > 0" % e, True) and fact_in(facts, "%s.is_related_to(%s)" % (ent, e), True)
         rep.check("C17.A7", "finished|reset", fin, good, "e.priority = 0 under e.priority > 0 and ent.is_related_to(e)",
                   "finished() no longer brings related deferred entries back to normal priority (they stay deferred after the obstacle is gone)")
 
@@ -258,8 +258,7 @@ class C17:
                 src = v
             ok_src = src is not None and pat.match("self.prioritize(%s, %s)" % (side, path), src) is not None
             facts = ctx.facts_at(f, s_)
-            allowed = {(path, True), ("prior_path == %s" % path, False)}
-            extra = [x for x in facts if x not in allowed and not ((not x[1]) and x[0].replace(" ", "") in ("%s==%s.priority" % (getattr(v, "id", "?"), ent), "%s.priority==%s" % (ent, getattr(v, "id", "?"))))]
+            extra = extra_facts(facts, [(path, True), ("$O == %s" % path, False), ("$N == %s.priority" % ent, False)])
             good = good and ok_src and not extra
             detail = "value from prioritize(side, path): %s; extra guards: %s" % (ok_src, extra)
         rep.check("C17.A8", "_change_path|priority", f, good, "priority := prioritize(side, path) whenever it differs",
